@@ -325,7 +325,10 @@ Definition failed_state_message (st : state) : text * list out :=
 (* ---------------------------------------------------------------------------------------- *)
 (* start of the agent process (initial start and every restart)                             *)
 (* ---------------------------------------------------------------------------------------- *)
-Definition boot (fs : list (keyid * bool)) (dir : bool) : state * list out * list sys :=
+(* [co] ("chown ok"): the environment lets chown(key dir, root, root) succeed.  When it does not (agent
+   without CAP_CHOWN on a directory somebody else owns) acl_directory logs the failure and STILL sets the
+   mode: the directory is then as restricted as the agent can make it. *)
+Definition boot (fs : list (keyid * bool)) (dir : bool) (co : bool) : state * list out * list sys :=
   let st0 := {| mem := None; chan := ChUnknown; kkmsg := unknown_status; files := fs; latch_ready := false;
                 notify_pending := false; rule := 0%N; dir_exists := true |} in
   (* proxy_server.rs start: listener started *)
@@ -335,11 +338,14 @@ Definition boot (fs : list (keyid * bool)) (dir : bool) : state * list out * lis
   let '(st1, o1) := set_status st0 [Lit "poll secure channel status task started."] true in
   let o_dir := log_trace [Lit "key folder "; Public "key dir"; Lit " created if not exists before."]
             ++ log_trace [Lit "acl_directory: start to set root-only permission to folder "; Public "key dir"; Lit "."]
-            ++ log_trace [Lit "acl_directory: successfully set root-only permission to folder "; Public "key dir"; Lit "."]
+            ++ log_trace (if co then [Lit "acl_directory: successfully set root-only permission to folder "; Public "key dir"; Lit "."]
+                          else [Lit "acl_directory: failed to set root-only permission to folder "; Public "key dir";
+                                Lit ". Error: "; Public "errno"])
             ++ log_trace [Lit "acl_directory: successfully set root-only permission to folder "; Public "key dir"; Lit "."]
             ++ log_trace [Lit "Folder "; Public "key dir"; Lit " ACLed if has not before."] in
   (st1, o_listener ++ o1 ++ o_dir,
-   (if dir then [] else [Mkdir]) ++ [Chown Consts.c12_acl_uid Consts.c12_acl_gid; Chmod Consts.c12_acl_mode]).
+   (if dir then [] else [Mkdir]) ++ (if co then [Chown Consts.c12_acl_uid Consts.c12_acl_gid] else [])
+   ++ [Chmod Consts.c12_acl_mode]).
 
 (* ---------------------------------------------------------------------------------------- *)
 (* one iteration of loop_poll                                                               *)
@@ -519,34 +525,35 @@ Definition status_tick (st : state) : list out :=
                     Public "ebpf, listener, telemetry status, connection summaries"])]
   ++ event true [Lit "Aggregate status written to status file: "; Public "path"].
 
-Definition step (v : variant) (st : state) (o : op) : state * list out * list sys :=
+Definition step (v : variant) (co : bool) (st : state) (o : op) : state * list out * list sys :=
   match o with
   | Poll s k a => poll v st s k a
-  | Restart => boot (files st) (dir_exists st)
+  | Restart => boot (files st) (dir_exists st) co
   | ClientRequest => (st, client_request st, [])
   | ProvisionQuery n => let '(st1, o) := provision_query st n in (st1, o, [])
   | ProvisionTimeup => let '(o, s) := provision_timeup st in (st, o, s)
   | StatusTick => (st, status_tick st, [])
   end.
 
-Fixpoint run_from (v : variant) (st : state) (h : history) : list out * list sys :=
+Fixpoint run_from (v : variant) (co : bool) (st : state) (h : history) : list out * list sys :=
   match h with
   | [] => ([], [])
   | o :: h' =>
-      let '(st1, o1, s1) := step v st o in
-      let '(o2, s2) := run_from v st1 h' in
+      let '(st1, o1, s1) := step v co st o in
+      let '(o2, s2) := run_from v co st1 h' in
       (o1 ++ o2, s1 ++ s2)
   end.
 
 (* [predir]: the key directory already exists (created by someone else, mode 0o755, not chown'ed)
    when the agent starts for the first time *)
-Definition run_all (v : variant) (predir : bool) (h : history) : list out * list sys :=
-  let '(st0, o0, s0) := boot [] predir in
-  let '(o, s) := run_from v st0 h in (o0 ++ o, s0 ++ s).
+Definition run_all (v : variant) (predir co : bool) (h : history) : list out * list sys :=
+  let '(st0, o0, s0) := boot [] predir co in
+  let '(o, s) := run_from v co st0 h in (o0 ++ o, s0 ++ s).
 
 (* DESIGN 5 C12: run : history -> list (sink * text) *)
-Definition run (v : variant) (h : history) : list out := fst (run_all v false h).
-Definition sys_trace (v : variant) (predir : bool) (h : history) : list sys := snd (run_all v predir h).
+Definition run_env (v : variant) (predir co : bool) (h : history) : list out := fst (run_all v predir co h).
+Definition run (v : variant) (h : history) : list out := run_env v false true h.
+Definition sys_trace (v : variant) (predir co : bool) (h : history) : list sys := snd (run_all v predir co h).
 
 (* ---------------------------------------------------------------------------------------- *)
 (* the property, executable                                                                 *)
@@ -604,11 +611,15 @@ Definition sys_step (d : dirstate) (e : sys) : dirstate :=
   end.
 Definition restricted (d : dirstate) : bool :=
   match d with Some (true, m) => N.eqb m 448%N | _ => false end.   (* root:root, 0o700 *)
-Fixpoint creates_restricted (d : dirstate) (tr : list sys) : bool :=
+Definition mode_restricted (d : dirstate) : bool :=
+  match d with Some (_, m) => N.eqb m 448%N | None => false end.   (* 0o700 *)
+(* what can be demanded in environment [co]: the mode always, the owner when chown can succeed *)
+Definition restricted_in (co : bool) (d : dirstate) : bool := if co then restricted d else mode_restricted d.
+Fixpoint creates_restricted (co : bool) (d : dirstate) (tr : list sys) : bool :=
   match tr with
   | [] => true
-  | Create _ :: tr' => restricted d && creates_restricted d tr'
-  | e :: tr' => creates_restricted (sys_step d e) tr'
+  | Create _ :: tr' => restricted_in co d && creates_restricted co d tr'
+  | e :: tr' => creates_restricted co (sys_step d e) tr'
   end.
 Definition init_dir (predir : bool) : dirstate := if predir then Some (false, 493%N) else None.
 Definition dir_after (predir : bool) (tr : list sys) : dirstate := fold_left sys_step tr (init_dir predir).
